@@ -713,4 +713,132 @@ theorem dcol_bytes (L put : List Line) (ln col endLn endCol : Nat) (h : ValidSpa
     simp [h1, this]; omega
 
 
+/-! ### placement of a parsed fragment -/
+
+theorem off_cons (x : Line) (Y : List Line) (l c : Nat) : off (x :: Y) (l + 1) c = x.length + 1 + off Y l c := by
+  have := off_append_right [x] Y l c
+  simp only [List.length_singleton, List.singleton_append] at this
+  rw [Nat.add_comm 1 l] at this
+  rw [this]; simp
+
+theorem off_zero (x : Line) (Y : List Line) (c : Nat) : off (x :: Y) 0 c = min c x.length := by
+  simp [off_eq, lineStart, lineAt]
+
+/-- offsets inside the wrapped put lines: the first line is longer by the kept prefix -/
+theorem wrap_off (pre post : Line) (put : List Line) (l c : Nat) (hl : l < put.length) (hc : c ≤ (lineAt put l).length) :
+    off (wrap pre put post) l (placeCol pre.length l c) = pre.length + off put l c := by
+  match put, hl with
+  | [p], hl =>
+    have : l = 0 := by simpa using hl
+    subst this
+    simp only [lineAt, List.getD_cons_zero] at hc
+    simp only [wrap, placeCol, if_true, off_zero, List.length_append]
+    omega
+  | p0 :: p1 :: ps, hl =>
+    simp only [wrap]
+    cases l with
+    | zero =>
+      simp only [lineAt, List.getD_cons_zero] at hc
+      simp only [placeCol, if_true, off_zero, List.length_append]
+      omega
+    | succ l' =>
+      have hP := dropLast_lastLine (p1 :: ps) (by simp)
+      have hl' : l' < (p1 :: ps).length := by simpa using hl
+      have hc' : c ≤ (lineAt (p1 :: ps) l').length := by simpa [lineAt] using hc
+      have hpc : placeCol pre.length (l' + 1) c = c := by simp [placeCol]
+      rw [hpc, off_cons, off_cons]
+      generalize lastLine (p1 :: ps) = lst at *
+      generalize (p1 :: ps).dropLast = D at *
+      rw [← hP] at hl' hc' ⊢
+      simp only [List.length_append, List.length_singleton] at hl'
+      by_cases hd : l' < D.length
+      · rw [off_append_left D _ l' c hd, off_append_left D _ l' c hd]
+        simp only [List.length_append]; omega
+      · have he : l' = D.length + 0 := by omega
+        rw [he, off_append_right, off_append_right, off_zero, off_zero]
+        rw [he, lineAt_append_right] at hc'
+        simp only [lineAt, List.getD_cons_zero] at hc'
+        simp only [List.length_append]; omega
+
+theorem lineStart_eq_flatTail (L : List Line) (l : Nat) : lineStart L l = (flatTail (L.take l)).length := by
+  simp [lineStart, length_flatTail]
+
+/-- **Placement, offsets**: a point `(l, c)` of the put lines lies, in the new document, at `(ln + l, placeCol col l c)`, and its
+linear offset is the offset of the splice start plus its offset inside the put text. -/
+theorem off_putSrc_placed (L put : List Line) (ln col endLn endCol : Nat) (h : ValidSpan L ln col endLn endCol)
+    (l c : Nat) (hl : l < put.length) (hc : c ≤ (lineAt put l).length) :
+    off (putSrc L put ln col endLn endCol) (placeLn ln l) (placeCol col l c) = off L ln col + off put l c := by
+  have hle := h.hle; have hend := h.hend; have hcol := h.hcol
+  have hA : (L.take ln).length = ln := by simp; omega
+  rw [putSrc_normal L put ln col endLn endCol h, spliceMiddle, List.append_assoc]
+  have h1 := off_append_right (L.take ln)
+    (wrap ((lineAt L ln).take col) put ((lineAt L endLn).drop endCol) ++ L.drop (endLn + 1)) l (placeCol col l c)
+  rw [hA] at h1
+  have hW : l < (wrap ((lineAt L ln).take col) put ((lineAt L endLn).drop endCol)).length := by
+    rw [wrap_length]; omega
+  have hpre : ((lineAt L ln).take col).length = col := by simp; omega
+  have h2 := wrap_off ((lineAt L ln).take col) ((lineAt L endLn).drop endCol) put l c hl hc
+  rw [hpre] at h2
+  unfold placeLn
+  rw [h1, off_append_left _ _ _ _ hW, h2, off_eq L ln col, Nat.min_eq_left hcol, lineStart_eq_flatTail]
+  omega
+
+theorem splice_inside {α : Type} (P X S : List α) (x y : Nat) (hy : y ≤ X.length) :
+    ((P ++ X ++ S).drop (P.length + x)).take (y - x) = (X.drop x).take (y - x) := by
+  rw [List.append_assoc, drop_len_add, ← List.drop_take, ← List.drop_take]
+  congr 1
+  rw [List.take_append_of_le_length hy]
+
+/-- **Placement, text**: every span of the freshly parsed fragment denotes, at its placed coordinates in the new document,
+exactly the text it denoted in the fragment. -/
+theorem getFlat_placed (L put : List Line) (ln col endLn endCol : Nat) (h : ValidSpan L ln col endLn endCol)
+    (hp : put ≠ []) (l1 c1 l2 c2 : Nat) (hl1 : l1 < put.length) (hl2 : l2 < put.length)
+    (hc1 : c1 ≤ (lineAt put l1).length) (hc2 : c2 ≤ (lineAt put l2).length) :
+    getFlat (putSrc L put ln col endLn endCol) (placeLn ln l1) (placeCol col l1 c1) (placeLn ln l2) (placeCol col l2 c2)
+      = getFlat put l1 c1 l2 c2 := by
+  have hln : ln < L.length := by have := h.hle; have := h.hend; omega
+  unfold getFlat
+  rw [off_putSrc_placed L put ln col endLn endCol h l1 c1 hl1 hc1,
+    off_putSrc_placed L put ln col endLn endCol h l2 c2 hl2 hc2, putSrc_flat L put ln col endLn endCol h hp]
+  have hP : ((flat L).take (off L ln col)).length = off L ln col := by
+    simp; exact Nat.min_eq_left (off_le_length L ln col hln)
+  have e : off L ln col + off put l2 c2 - (off L ln col + off put l1 c1) = off put l2 c2 - off put l1 c1 := by omega
+  rw [e]
+  have := splice_inside ((flat L).take (off L ln col)) (flat put) ((flat L).drop (off L endLn endCol)) (off put l1 c1)
+    (off put l2 c2) (off_le_length put l2 c2 hl2)
+  rw [hP] at this
+  exact this
+
+/-- the first line of the new document that receives put text -/
+theorem lineAt_putSrc_first (L put : List Line) (ln col endLn endCol : Nat) (h : ValidSpan L ln col endLn endCol)
+    (hp : put ≠ []) :
+    ∃ rest, lineAt (putSrc L put ln col endLn endCol) ln = (lineAt L ln).take col ++ lineAt put 0 ++ rest := by
+  have hle := h.hle; have hend := h.hend
+  have hA : (L.take ln).length = ln := by simp; omega
+  rw [putSrc_normal L put ln col endLn endCol h, spliceMiddle, List.append_assoc]
+  have := lineAt_append_right (L.take ln)
+    (wrap ((lineAt L ln).take col) put ((lineAt L endLn).drop endCol) ++ L.drop (endLn + 1)) 0
+  rw [hA] at this; simp only [Nat.add_zero] at this
+  rw [this]
+  match put, hp with
+  | [p], _ => exact ⟨(lineAt L endLn).drop endCol, by simp [wrap, lineAt]⟩
+  | p0 :: p1 :: ps, _ => exact ⟨[], by simp [wrap, lineAt]⟩
+
+/-- **Placement, bytes**: on the first put line the byte column of a fragment point is its byte column in the fragment plus
+the BYTE length of the kept prefix `lines[ln].c2b(col)` — not the character column `col`. -/
+theorem place_bytes (L put : List Line) (ln col endLn endCol : Nat) (h : ValidSpan L ln col endLn endCol)
+    (hp : put ≠ []) (c : Nat) (hc : c ≤ (lineAt put 0).length) :
+    c2b (lineAt (putSrc L put ln col endLn endCol) (placeLn ln 0)) (placeCol col 0 c)
+      = placeColBytes L ln col 0 (c2b (lineAt put 0) c) := by
+  obtain ⟨rest, hr⟩ := lineAt_putSrc_first L put ln col endLn endCol h hp
+  have hcol := h.hcol
+  have hpre : ((lineAt L ln).take col).length = col := by simp; omega
+  simp only [placeLn, placeCol, placeColBytes, if_true, Nat.add_zero]
+  rw [hr, List.append_assoc]
+  have := c2b_append ((lineAt L ln).take col) (lineAt put 0 ++ rest) c
+  rw [hpre] at this
+  rw [this, c2b_append_left _ _ _ hc]
+  simp [c2b, List.take_take]
+
+
 end Pfst.Text
